@@ -205,7 +205,7 @@ impl Property for C06 {
         }
     }
     fn rule(&self) -> &'static str {
-        "seeded histories of {OUT to a paging-port alias (all values, lock early/late/never, decoy ports with A15=1 or A1=1), LD (HL),A, LD A,(HL), peek, full sweep, one arbitrary instruction (16-bit loads/stores, stack traffic, block transfers, IM 2 vector fetch, own bytes, stratified opcodes) with its multi-byte accesses straddling the 16 KiB window borders and RefZ80 on RefMem as the model, host load_rom in the middle of the history} executed by the emulated CPU from a stub in bank 2, on both machines, ROM embedded or supplied through load_rom with chunked assets; model = RefMem checked after every op; distinct = (machine, latch state incl. lock (bank, screen, rom, locked), op kind, window, bank hit)"
+        "seeded histories of {OUT to a paging-port alias (all values, lock early/late/never, decoy ports with A15=1 or A1=1), LD (HL),A, LD A,(HL), peek, full sweep, one arbitrary instruction (16-bit loads/stores, stack traffic, block transfers, IM 2 vector fetch, own bytes, stratified opcodes) with its multi-byte accesses straddling the 16 KiB window borders and RefZ80 on RefMem as the model, host load_rom in the middle of the history, SNA / SZX snapshot of the current state loaded in the middle of the history} executed by the emulated CPU from a stub in bank 2, on both machines, ROM embedded or supplied through load_rom with chunked assets; model = RefMem checked after every op; distinct = (machine, latch state incl. lock (bank, screen, rom, locked), op kind, window, bank hit)"
     }
     fn state_measure(&self) -> &'static str {
         "distinct (machine, paging latch value bits 0-5, locked) states in which at least one access was checked"
@@ -220,7 +220,7 @@ impl Property for C06 {
         vec!["paging writes use odd ports with A15=0, A1=0 and A5-A7 set (no other device selected); decoys use A15=1 or A1=1", "the 8 bytes of bank 2 that hold the stub are not written by the history (they are restored after each instruction-level op)", "instruction-level op: instructions that read a port, or write an even port that also matches the paging decode, are don't-cares (values adopted from the machine); F3/F5, MEMPTR and Q are not compared (C01)"]
     }
     fn expected_probes(&self) -> Vec<&'static str> {
-        vec!["write_after_lock", "alias_bank5_at_c000", "alias_bank2_at_c000", "write_to_rom", "decoy_port", "sweep", "host_rom", "host_rom_midrun", "paging_on_48k", "im2_vector_fetch", "paging_by_other_out_forms"]
+        vec!["write_after_lock", "alias_bank5_at_c000", "alias_bank2_at_c000", "write_to_rom", "decoy_port", "sweep", "host_rom", "host_rom_midrun", "snapshot_loaded_midrun", "paging_on_48k", "im2_vector_fetch", "paging_by_other_out_forms"]
     }
 
     fn gen(&self, rng: &mut Rng, tier: Tier, _idx: u64) -> Scenario {
@@ -275,6 +275,8 @@ impl Property for C06 {
                 17 => sc.op("peek", &[rng.range(0, 0xFFFF)]),
                 18 => {
                     if rng.chance(1, 6) {
+                        sc.op("snap", &[rng.range(0, 255)]);
+                    } else if rng.chance(1, 6) {
                         // the host supplies a (different) ROM set while the machine is running
                         sc.op("load_rom", &[rng.range(0, 255), *rng.pick(&[0i64, 1, 7, 100, 4096, 16384])]);
                     } else {
@@ -449,6 +451,51 @@ impl Property for C06 {
                     let addr = op.arg(0) as u16;
                     if e.peek(addr) != m.read(addr) {
                         return Err(Fail::new("C06.peek", &format!("machine={},window={}", machine, addr as usize / PAGE), format!("peek({:04X}) = {:02X}, expected {:02X}", addr, e.peek(addr), m.read(addr))));
+                    }
+                }
+                "snap" => {
+                    // the host saves nothing and loads a snapshot describing exactly the current memory and
+                    // paging state (SNA or SZX): the memory map afterwards is the one the file describes
+                    ctx.probe("snapshot_loaded_midrun");
+                    let fmt = op.arg(0) & 1;
+                    let mut s = crate::snapfmt::SnapState::new(m128);
+                    for b in 0..8 {
+                        s.banks[b].copy_from_slice(&m.banks[b]);
+                    }
+                    s.port_7ffd = if m128 { m.last_7ffd } else { 0 };
+                    s.cpu.pc = STUB;
+                    s.cpu.sp = 0x9000;
+                    s.border = (op.arg(0) >> 1) as u8 & 7;
+                    let r = if fmt == 0 {
+                        let bytes = if m128 { crate::snapfmt::write_sna128(&s) } else { crate::snapfmt::write_sna48(&s) };
+                        if !m128 {
+                            // the 48K format keeps PC on the stack: those two bytes are part of the loaded image
+                            m.write(0x8FFE, STUB as u8);
+                            m.write(0x8FFF, (STUB >> 8) as u8);
+                        }
+                        e.load_snapshot(rustzx_core::host::Snapshot::Sna(SimAsset::plain(bytes)))
+                    } else {
+                        let opt = crate::snapfmt::SzxOptions { compress: vec![op.arg(0) & 4 != 0; 8], ..Default::default() };
+                        e.load_snapshot(rustzx_core::host::Snapshot::Szx(SimAsset::plain(crate::snapfmt::write_szx(&s, &opt))))
+                    };
+                    if let Err(x) = r {
+                        return Err(Fail::new("C06.load_snapshot", &format!("machine={},format={}", machine, if fmt == 0 { "sna" } else { "szx" }), format!("a snapshot of the current state was rejected: {:?}", x)));
+                    }
+                    if m128 {
+                        let v = m.last_7ffd;
+                        m.locked = false;
+                        m.out_7ffd(v);
+                    }
+                    for w in 0..4u32 {
+                        let a = (w * PAGE as u32 + 0x0777 + (op.arg(0) as u32 & 0xFF) * 9) as u16;
+                        if e.peek(a) != m.read(a) {
+                            let (rom, p) = m.window(w as usize);
+                            return Err(Fail::new(
+                                "C06.snapshot_map",
+                                &format!("machine={},format={},window={}", machine, if fmt == 0 { "sna" } else { "szx" }, w),
+                                format!("after loading a {} snapshot of the current state (paging latch {:02X}), address {:04X} reads {:02X}, expected {:02X} ({} {})", if fmt == 0 { "SNA" } else { "SZX" }, m.last_7ffd, a, e.peek(a), m.read(a), if rom { "ROM" } else { "bank" }, p),
+                            ));
+                        }
                     }
                 }
                 "load_rom" => {
